@@ -155,6 +155,10 @@ def check(ctx, rep):
         okc = any(c.d["args"] in ((("attr", ("param", "self"), "out"), q.recv(r)), (outv, q.recv(r))) for c in chains)
         rep.ob("R-FANOUT", "BoolOperation.__init__: chain_cancel(output, input) per input", okc, "cancelling the output would not reach this input", where_of(init, r.node))
     rep.require(saw, "BoolOperation.__init__: registration loop not found")
+    for cname2 in ("OrOperation", "AndOperation"):
+        ps2, it2 = ctx.paths(init, prog.cls(cname2), depth=5, immediate_callbacks=True, unroll=2)
+        early = [e for p in ps2 for e in p.evs("loop") if e.fn is init and e.d[0] == "exit" and e.d[1] == "break"]
+        rep.ob("R-FANOUT", "BoolOperation.__init__[%s]: the registration loop visits every input" % cname2, not early, "the loop over the inputs can be left early: the remaining inputs get neither chain_cancel nor a callback", where_of(init, early[0].node) if early else where_of(init))
     _chain_cancel(ctx, rep)
     for fname, cname in (("f_or", "OrOperation"), ("f_and", "AndOperation")):
         fi = prog.fn("bool:" + fname)
